@@ -164,12 +164,13 @@ impl RealState {
                     }
                     "merge2" => {
                         // two parentless nodes merged under a fresh root: the root is NOT slot 0
-                        if t.kids.len() != 2 {
+                        // (with more than two children the remaining subtrees are added below the fresh root afterwards)
+                        if t.kids.len() < 2 {
                             return bad;
                         }
                         let mut tree = Tree::new();
                         let mut ids = vec![];
-                        for k in t.kids.iter() {
+                        for k in t.kids.iter().take(2) {
                             let sub = build_api(k);
                             // graft: re-create the subtree in `tree`
                             let base = tree.size();
@@ -188,8 +189,19 @@ impl RealState {
                             }
                             ids.push(base);
                         }
-                        tree.merge_children(&ids[0], &ids[1], t.kids[0].len, t.kids[1].len, None, t.name.clone())
+                        let root = tree.merge_children(&ids[0], &ids[1], t.kids[0].len, t.kids[1].len, None, t.name.clone())
                             .unwrap();
+                        fn graft(tree: &mut Tree, r: &Rose, parent: usize) {
+                            let mut n = node_named(&r.name);
+                            n.comment = r.comment.clone();
+                            let id = tree.add_child(n, parent, r.len).unwrap();
+                            for k in r.kids.iter() {
+                                graft(tree, k, id);
+                            }
+                        }
+                        for k in t.kids.iter().skip(2) {
+                            graft(&mut tree, k, root);
+                        }
                         tree
                     }
                     _ => return bad,
@@ -247,6 +259,23 @@ impl RealState {
                     }
                     Err(e) => (format!("err {e:?}"), None),
                 }
+            }
+            ["real.warm"] => {
+                // every query that leaves something behind in the tree object (per-node distance caches, leaf index,
+                // partition maps): state carried into later calls must never change their answers
+                let t = &self.tree;
+                let _ = guarded(std::panic::AssertUnwindSafe(|| {
+                    let _ = t.distance_matrix();
+                    let _ = t.distance_matrix_recursive();
+                    let _ = t.get_partitions();
+                    let _ = t.robinson_foulds(t);
+                    let _ = t.weighted_robinson_foulds(t);
+                    let _ = t.compare_topologies(t);
+                    let _ = t.height();
+                    let _ = t.diameter();
+                    let _ = t.to_nexus();
+                }));
+                ("ok".into(), Some("nop".into()))
             }
             ["real.reset_cache"] => {
                 self.tree.reset_bipartition_cache();
